@@ -108,28 +108,14 @@ def impl_oracle(c):
         return "trailing bytes not reported"
     return None
 
-
-def run(ck):
-    ncases = 1500 if not ck.thorough else 20000
-    ck.gen()
-    built = ck.coq_make(MODEL + PROOFS, clean=ck.thorough)
-    ck.obligations = ck.count_statements(STATEMENT_FILES)
-    proofs_ok = all(built.get(x) for x in PROOFS)
-    if proofs_ok:
-        if ck.audit("theories/Props/C13.v"):
-            ck.discharged = list(ck.obligations)
-    if ck.thorough and proofs_ok:
-        ck.coqchk(["Verif.Props.C13"])
-
-    binp = ck.build_harness("c13")
+def explore(ck, binp, seed, ncases, model_ok, first):
     cases = []
-    if binp:
-        rc, out, err = vlib.sh2([binp, "-seed", str(ck.seed), "-n", str(ncases)], timeout=1500)
-        if rc != 0:
-            ck.broken.append({"what": "harness run failed", "detail": err[-1500:]})
-        for line in out.splitlines():
-            if line.startswith("{"):
-                cases.append(json.loads(line))
+    rc, out, err = vlib.sh2([binp, "-seed", str(seed), "-n", str(ncases)], timeout=1500)
+    if rc != 0:
+        ck.broken.append({"what": "harness run failed", "detail": err[-1500:]})
+    for line in out.splitlines():
+        if line.startswith("{"):
+            cases.append(json.loads(line))
 
     # implementation-only oracle (also the search for a failing input)
     for c in cases:
@@ -142,11 +128,11 @@ def run(ck):
             ck.violation("impl:%s:%s" % (c["stream"], why.split(":")[0]), why,
                          {"case": c, "expected": "error value without crash, allocation proportional to input",
                           "observed": c["obs"]})
-    for c in cases[:2] + cases[80:82] + cases[-2:]:
-        ck.sample({k: c[k] for k in c if k != "i"})
+    if first:
+        for c in cases[:2] + cases[80:82] + cases[-2:]:
+            ck.sample({k: c[k] for k in c if k != "i"})
 
     # correspondence: model evaluated inside Coq on the same inputs
-    model_ok = all(built.get(x) for x in MODEL)
     if cases and model_ok:
         shard = 2500
         mism = []
@@ -160,7 +146,7 @@ def run(ck):
                    + ";\n  ".join(to_coq(c) for c in part) + "\n].\n"
                    "Definition M := Eval vm_compute in mismatches cases.\nPrint M.\n"
                    "Definition MD := Eval vm_compute in mismatches_deployed cases.\nPrint MD.\n")
-            rc, out = ck.coq_eval("cases_%d" % (s // shard), txt)
+            rc, out = ck.coq_eval("cases_%d_%d" % (seed, s // shard), txt)
             got = vlib.parse_coq_list_of_nat(out, "M") if rc == 0 else None
             gotd = vlib.parse_coq_list_of_nat(out, "MD") if rc == 0 else None
             if got is None or gotd is None:
@@ -168,12 +154,12 @@ def run(ck):
                 break
             mism += [s + i for i in got]
             mism_dep += [s + i for i in gotd]
-        ck.coverage["correspondence_cases"] = len(cases)
-        ck.coverage["correspondence_mismatches"] = len(mism)
+        ck.coverage["correspondence_cases"] = ck.coverage.get("correspondence_cases", 0) + len(cases)
+        ck.coverage["correspondence_mismatches"] = ck.coverage.get("correspondence_mismatches", 0) + len(mism)
         for i in mism[:50]:
             c = cases[i]
             ck.broken.append({"what": "correspondence: model and implementation disagree",
-                              "stream": c["stream"], "case_index": i})
+                              "stream": c["stream"], "case_index": i, "seed": seed})
             why = impl_oracle(c)
             if why is None:
                 # the case itself is the replay: the implementation does not behave as the
@@ -182,17 +168,39 @@ def run(ck):
                 ck.violation("corr:%s:%s" % (c["stream"], c["op"]), why,
                              {"case": c, "model": "Sni/Wire.v evaluated by vm_compute disagrees",
                               "observed": c["obs"]})
-        ck.coverage["deployed_protocol_mismatches"] = len(mism_dep)
+        ck.coverage["deployed_protocol_mismatches"] = ck.coverage.get("deployed_protocol_mismatches", 0) + len(mism_dep)
         for i in [i for i in mism_dep if i not in set(mism)][:50]:
             c = cases[i]
             ck.broken.append({"what": "deployed protocol: the current code treats a deployed frame differently",
-                              "stream": c["stream"], "case_index": i})
+                              "stream": c["stream"], "case_index": i, "seed": seed})
             ck.violation("deployed:%s:%s" % (c["stream"], c["op"]),
                          "a frame of the deployed protocol is encoded/decoded differently by the current code",
                          {"case": c, "model": "Sni/Wire.v deployed_schemas/deployed_table disagree",
                           "observed": c["obs"]})
     elif cases and not model_ok:
         ck.broken.append({"what": "model does not compile; correspondence not evaluated"})
+
+
+def run(ck):
+    ncases = 2600 if not ck.thorough else 24000
+    ck.gen()
+    built = ck.coq_make(MODEL + PROOFS, clean=ck.thorough)
+    ck.obligations = ck.count_statements(STATEMENT_FILES)
+    proofs_ok = all(built.get(x) for x in PROOFS)
+    if proofs_ok:
+        if ck.audit("theories/Props/C13.v"):
+            ck.discharged = list(ck.obligations)
+    if ck.thorough and proofs_ok:
+        ck.coqchk(["Verif.Props.C13"])
+
+    binp = ck.build_harness("c13")
+    model_ok = all(built.get(x) for x in MODEL)
+    if binp:
+        explore(ck, binp, ck.seed, ncases, model_ok, first=True)
+        if ck.broken and not any(v["found_input"] for v in ck.violations):
+            # something no longer checks but no concrete failing input yet: widen the search
+            ck.log("searching for a failing input with a larger sample")
+            explore(ck, binp, ck.seed + 7919, ncases * 8, model_ok, first=False)
 
     return ck.finish(
         level="proof",
